@@ -383,8 +383,8 @@ pub fn property() -> Property {
                 Step::Enumerate { kind: "short_strings", count: 1 + 256 + 65536 },
                 Step::Enumerate { kind: "three_bytes", count: 5 << 16 },
                 Step::Enumerate { kind: "sd2_headers_q", count: 1 << 20 },
-                Step::Pbt { kind: "corrupt", cases: 3000, max_len: 40 },
-                Step::Pbt { kind: "strings", cases: 20_000, max_len: 40 },
+                Step::Pbt { kind: "corrupt", cases: 12_000, max_len: 40 },
+                Step::Pbt { kind: "strings", cases: 100_000, max_len: 40 },
             ],
             Tier::Thorough => vec![
                 Step::Enumerate { kind: "short_strings", count: 1 + 256 + 65536 },
